@@ -482,6 +482,11 @@ class ContractSet:
             raise SpecError('duplicate spec function %s' % name)
         self.specs[name] = SpecDef(kind, name, params, ret, body, dec, pkg, text)
 
+    def inpkg(self, expr):
+        """a clause is evaluated in the package of the contract file it was written in, also when it is checked as
+        part of another contract (an implementation against an interface contract of another package)"""
+        return ('inpkg', self._pkg, expr) if getattr(self, '_pkg', None) else expr
+
     def parse_clauses(self, g, target, loops_ok=True):
         """parse clause lines g[1:] into target (FuncContract or LemmaDef)"""
         # merge continuation lines (not starting with a clause keyword)
@@ -501,9 +506,9 @@ class ContractSet:
             kw, tags, rest = m.group(1), m.group(2), m.group(3).strip()
             tags = [t.strip() for t in tags[1:-1].split(',')] if tags else []
             if kw == 'requires':
-                target.requires.append(Clause(tags, parse_expr(rest), rest))
+                target.requires.append(Clause(tags, self.inpkg(parse_expr(rest)), rest))
             elif kw == 'ensures':
-                target.ensures.append(Clause(tags, parse_expr(rest), rest))
+                target.ensures.append(Clause(tags, self.inpkg(parse_expr(rest)), rest))
             elif kw == 'assigns':
                 if rest == 'nothing':
                     target.assigns = []
@@ -560,7 +565,7 @@ class ContractSet:
             elif kw == 'invariant':
                 if cur_loop is None:
                     raise SpecError('invariant outside loop')
-                cur_loop.invariants.append(Clause(tags, parse_expr(rest), rest))
+                cur_loop.invariants.append(Clause(tags, self.inpkg(parse_expr(rest)), rest))
             elif kw == 'modifies':
                 cur_loop.modifies = [parse_assign_target(x) for x in split_top(rest)]
             elif kw == 'use':
